@@ -6,6 +6,7 @@ require (
 	github.com/ProtonMail/go-crypto v1.2.0
 	github.com/google/go-containerregistry v0.20.3
 	github.com/sigstore/sigstore v1.9.3
+	github.com/spf13/cobra v1.9.1
 	github.com/sylabs/sif/v2 v2.0.0
 )
 
@@ -17,6 +18,7 @@ require (
 	github.com/opencontainers/go-digest v1.0.0 // indirect
 	github.com/secure-systems-lab/go-securesystemslib v0.9.0 // indirect
 	github.com/sigstore/protobuf-specs v0.4.1 // indirect
+	github.com/spf13/pflag v1.0.6 // indirect
 	github.com/titanous/rocacheck v0.0.0-20171023193734-afe73141d399 // indirect
 	golang.org/x/crypto v0.36.0 // indirect
 	golang.org/x/sys v0.31.0 // indirect
